@@ -479,6 +479,25 @@ func c10Worker(w *W) {
 			}
 		}
 	}
+	// a user-written logger kind whose level range changes at run time (GetLevel belongs to the Logger interface): whether a
+	// call is "enabled for the serving logger" is decided by the range the logger reports at the time of the call
+	if w.Spec.Shard == 2%w.Spec.NShards {
+		cfg := map[string]string{"appender.unused.type": "Discard", "logger.lg.type": "VMem", "logger.lg.tags": "c10tag", "logger.lg.dynamic": "true", "enableCaller": "true", "fastCaller": "false"}
+		vmemDynamicMin.Store(log.InfoLevel)
+		if err := log.Refresh(cfg); err != nil {
+			w.Violate("C10:refresh-failed", "Refresh with a user-written logger kind failed: "+err.Error(), cfg)
+			log.Destroy()
+		} else {
+			for _, thr := range []log.Level{log.InfoLevel, log.ErrorLevel, log.TraceLevel, log.WarnLevel, log.DebugLevel, log.FatalLevel} {
+				vmemDynamicMin.Store(thr) // no Refresh in between: the same live logger now reports another range
+				doCalls("userlogger-dynamic-"+strings.ToLower(thr.Name()), rng{thr.Code(), 999}, 3)
+				l, t := collect()
+				verify(l, t)
+			}
+			log.Destroy()
+			w.Count("threshold_changes_of_a_live_user_logger", 6)
+		}
+	}
 	// leave the globals in their default state
 	_ = log.Refresh(map[string]string{"appender.rec.type": "VRec", "enableCaller": "true", "fastCaller": "false"})
 	log.Destroy()
@@ -492,7 +511,7 @@ func init() {
 		Rule: "cross product of 24 call forms (14 fixed-level entry points + Record at 10 levels incl. custom and NONE) x 8 subsets of the three hooks set x 5 contexts (Background, TODO, value chain, cancelled, nil) under: the built-in logger before any Refresh and again right after Destroy of a restrictive configuration, and Refresh-built sync, async(Block) and rolling-file loggers x enableCaller on/off x fastCaller on/off x 10 logger level ranges chosen so that every level is enabled in some and disabled in others " +
 			"(quick: the cross product under each Refresh is strided, the before-Refresh state is complete). Monitors: counting closures per call (hooks, lazy generator, identity of the context they receive), recording appender / console collector for the emitted record (hook time or [before,after] bracket, context string, context fields ahead of call fields). " +
 			"A second worker kind keeps the three hooks installed while 4-32 goroutines log concurrently (150 calls each per round, call form / tag / level drawn per call) through a sync logger, an async (Block, capacity 128) logger and a configured root whose level ranges and caller-lookup modes are redrawn every round; each call's context carries its own atomic counters and hook results, so counts, context identity and the record's time / context string / field order are judged per call; one quarter of these workers runs under the race detector, others under GOMAXPROCS/GOGC variants. " +
-			"One further scenario keeps six events in flight in an asynchronous logger (gated appender) while the context-fields hook returns one shared immutable slice with spare capacity: every record must carry the hook's fields followed by its own. Non-trivial/distinct = distinct (state, call form, enabled/disabled, hook subset, context kind) tuples whose counts were right.",
+			"A user-written logger kind changes the level range it reports six times while live (no Refresh in between): counts follow the range reported at the time of the call. One further scenario keeps six events in flight in an asynchronous logger (gated appender) while the context-fields hook returns one shared immutable slice with spare capacity: every record must carry the hook's fields followed by its own. Non-trivial/distinct = distinct (state, call form, enabled/disabled, hook subset, context kind) tuples whose counts were right.",
 		Assumptions: []string{"hooks are swapped by the harness only while no log call is in progress (matrix kind: between calls of one goroutine; concurrent kind: before the goroutines start)", "the wall-clock bracket for unset TimeNow is widened by 1 ms on both sides (monotonic vs wall clock reading)"},
 		Run: func(d *D) {
 			var specs []Spec
